@@ -720,3 +720,54 @@ def cmp_cover(prov: Prov, cond, probe) -> set:
                 else:
                     out.add(("?", alt))
     return out
+
+
+# ---------------------------------------------------------------------- MATRIX: comparison cover
+def _container_fields(prov: Prov, container) -> set:
+    out = set()
+    for alt in prov.elems(container):
+        if op(alt) == "attr" and alt[2] in CANON:
+            out.add((alt[1], alt[2]))
+        elif op(alt) == "elemof" and op(alt[1]) == "attr" and alt[1][2] in LISTS:
+            out.add((alt[1][1], alt[1][2]))
+        else:
+            out.add(("?", alt))
+    return out
+
+
+def pair_compare_cover(prov: Prov, terms) -> list[tuple]:
+    """All ((recA, fieldA), (recB, fieldB), how, term) comparisons found in ``terms``."""
+    out = []
+    for t in terms:
+        for c in subterms(t):
+            if op(c) == "cmp" and c[1] in ("==", "!="):
+                for x in prov.fields(c[2]):
+                    for y in prov.fields(c[3]):
+                        out.append((x, y, "==", c))
+            elif op(c) == "cmp" and c[1] in ("in", "not in"):
+                for x in prov.fields(c[2]):
+                    for y in _container_fields(prov, c[3]):
+                        out.append((x, y, "in", c))
+            elif op(c) == "call" and op(c[1]) == "func" and c[1][1].endswith("._eq") and len(c[2]) >= 2:
+                for x in prov.fields(c[2][0]):
+                    for y in prov.fields(c[2][1]):
+                        out.append((x, y, "_eq", c))
+            elif op(c) == "call" and op(c[1]) == "func" and c[1][1].endswith("._in") and len(c[2]) >= 2:
+                for x in prov.fields(c[2][0]):
+                    for y in _container_fields(prov, c[2][1]):
+                        out.append((x, y, "_in", c))
+            elif op(c) == "bin" and c[1] == "&":
+                for x in _container_fields(prov, _unset(c[2])):
+                    for y in _container_fields(prov, _unset(c[3])):
+                        out.append((x, y, "&", c))
+            elif op(c) == "call" and op(c[1]) == "attr" and c[1][2] in ("intersection", "isdisjoint") and len(c[2]) == 1:
+                for x in _container_fields(prov, _unset(c[1][1])):
+                    for y in _container_fields(prov, _unset(c[2][0])):
+                        out.append((x, y, c[1][2], c))
+    return out
+
+
+def _unset(t):
+    if op(t) == "call" and op(t[1]) == "builtin" and t[1][1] in ("set", "frozenset", "list", "tuple") and len(t[2]) == 1:
+        return t[2][0]
+    return t
